@@ -13,7 +13,7 @@ import (
 )
 
 func init() {
-	props["C18"] = &propDef{run: runC18, explanation: "Partial. Decided statically: (O1) every comparator handed to sort.Slice/SliceStable in the metadata package is, on all weak orderings of (time_i, time_j, number_i, number_j), exactly time_i < time_j ∨ (time_i = time_j ∧ number_i < number_j) — the lexicographic anchoring order (finite, exhaustive); the version provider's comparator is a strict order on its single key; (T1) the transformer's purpose switch maps each of the five purposes to its own relationship and covers every purpose the patch validator admits; the key-context table covers every key type the validator admits; (P1) the verification-method literal (id = getObjectID(did, key id), type, controller = did), getObjectID (relative '#id' under @base, did+'#id' otherwise), exactly one append of the method per key and of each reference per purpose, the key-material table per key type, service id/type/endpoint plus copy of every other member; (P2) the metadata field mapping (method metadata, document metadata, published/unpublished operation literals field by field, de-duplication by canonical reference, both lists sorted before use). Not decided: counting statements over arbitrary documents beyond the one-append-per-iteration shape. The context of the key's type is looked up for every key (for-all loop form); each metadata member is stored under conditions on its own source only. The comparator of a sortedness test is held to the same order; the @base context entry is added under exactly the includeBase flag. No equivalent id reported for an unpublished document carries the initial state. canonicalId / equivalentId of a published document are unconditional and the canonical id is always an equivalent id; object ids are decided in concatenation form under both values of the @base flag; the key-material table is evaluated on all assignments of its atoms. Both transformer steps precede every accepting exit; key-type contexts are de-duplicated by equality; the generic transformer stores nothing over the id. Relationship lists start from slices of their own; optional metadata members are stored under a presence test of the whole value; every unpublished operation is listed. An empty key context leads to the defaults after the options."}
+	props["C18"] = &propDef{run: runC18, explanation: "Partial. Decided statically: (O1) every comparator handed to sort.Slice/SliceStable in the metadata package is, on all weak orderings of (time_i, time_j, number_i, number_j), exactly time_i < time_j ∨ (time_i = time_j ∧ number_i < number_j) — the lexicographic anchoring order (finite, exhaustive); the version provider's comparator is a strict order on its single key; (T1) the transformer's purpose switch maps each of the five purposes to its own relationship and covers every purpose the patch validator admits; the key-context table covers every key type the validator admits; (P1) the verification-method literal (id = getObjectID(did, key id), type, controller = did), getObjectID (relative '#id' under @base, did+'#id' otherwise), exactly one append of the method per key and of each reference per purpose, the key-material table per key type, service id/type/endpoint plus copy of every other member; (P2) the metadata field mapping (method metadata, document metadata, published/unpublished operation literals field by field, de-duplication by canonical reference, both lists sorted before use). Not decided: counting statements over arbitrary documents beyond the one-append-per-iteration shape. The context of the key's type is looked up for every key (for-all loop form); each metadata member is stored under conditions on its own source only. The comparator of a sortedness test is held to the same order; the @base context entry is added under exactly the includeBase flag. No equivalent id reported for an unpublished document carries the initial state. canonicalId / equivalentId of a published document are unconditional and the canonical id is always an equivalent id; object ids are decided in concatenation form under both values of the @base flag; the key-material table is evaluated on all assignments of its atoms. Both transformer steps precede every accepting exit; key-type contexts are de-duplicated by equality; the generic transformer stores nothing over the id. Relationship lists start from slices of their own; optional metadata members are stored under a presence test of the whole value; every unpublished operation is listed. An empty key context leads to the defaults after the options. Service members are copied whatever their values."}
 }
 
 func (c *Ctx) sortComparators(pkgRel string) []*ssa.Function {
@@ -623,9 +623,18 @@ func runC18(c *Ctx) {
 		c.oneAppendPerIteration("C18.P1", "service:one-append-per-service", ps, "[]document.Service")
 		// every other member copied: inner range over the service with MapUpdate(key,value) guarded by !ok
 		copied := false
+		var valueConds []string
 		forEachInstr(ps, func(in ssa.Instruction) {
 			if mu, ok := in.(*ssa.MapUpdate); ok && strings.Contains(c.Path(mu.Key, nil), "next(range(") && strings.Contains(c.Path(mu.Value, nil), "next(range(") {
 				copied = true
+				// … whatever its value: the copy is decided on the member's name only (a member that is there with the
+				// value null is still a member)
+				vp := c.Path(mu.Value, nil)
+				for _, cnd := range c.condsOf(mu.Block()) {
+					if strings.Contains(cnd, vp) {
+						valueConds = append(valueConds, cnd)
+					}
+				}
 			}
 		})
 		// or copied wholesale first (maps.Copy / maps.Clone of the service), the transformer's own members stored after it
@@ -655,7 +664,7 @@ func runC18(c *Ctx) {
 				copied = after
 			})
 		}
-		c.Check("C18.P1", "service:other-members-copied", copied, ps.Pos(), "every further member of the internal service is copied to the external one")
+		c.Check("C18.P1", "service:other-members-copied", copied && len(valueConds) == 0, ps.Pos(), fmt.Sprintf("every further member of the internal service is copied to the external one, whatever its value (conditions on the value: %v)", valueConds))
 	} else {
 		c.Unresolved("C18.P1", "processServices")
 	}
@@ -666,45 +675,69 @@ func runC18(c *Ctx) {
 		c.Analysed(nw)
 		okD := false
 		detail := "no test of len(keyCtx) against 0 that dominates the constructor's exits"
-		inLoop := map[*ssa.BasicBlock]bool{}
-		for _, l := range naturalLoops(nw) {
-			for b := range l.blocks {
-				inLoop[b] = true
-			}
-		}
-		forEachInstr(nw, func(in ssa.Instruction) {
-			bo, ok := in.(*ssa.BinOp)
-			if !ok || !isCmp(bo.Op) || !strings.HasPrefix(c.Path(bo.X, nil), "len(") || !strings.HasSuffix(c.Path(bo.X, nil), ".keyCtx)") || c.Path(bo.Y, nil) != "0" || inLoop[bo.Block()] {
-				return
-			}
-			for _, r := range returnsOf(nw) {
-				if !bo.Block().Dominates(r.Block()) {
-					return
+		// the test sits in New, or in an unexported helper New calls on every path after the options loop
+		var search func(fn *ssa.Function, top bool) bool
+		search = func(fn *ssa.Function, top bool) bool {
+			found := false
+			inLoop := map[*ssa.BasicBlock]bool{}
+			for _, l := range naturalLoops(fn) {
+				for b := range l.blocks {
+					inLoop[b] = true
 				}
 			}
-			// the edge on which the context is empty
-			var zeroTrue bool
-			switch bo.Op {
-			case token.EQL, token.LEQ:
-				zeroTrue = true
-			case token.NEQ, token.GTR:
-				zeroTrue = false
-			default:
-				return
+			domExits := func(b *ssa.BasicBlock) bool {
+				for _, r := range returnsOf(fn) {
+					if !b.Dominates(r.Block()) {
+						return false
+					}
+				}
+				return true
 			}
-			for _, e := range boolEdges(bo, zeroTrue) {
-				forEachInstr(nw, func(i2 ssa.Instruction) {
-					st, isS := i2.(*ssa.Store)
-					if !isS || !e.to.Dominates(st.Block()) {
+			forEachInstr(fn, func(in ssa.Instruction) {
+				switch x := in.(type) {
+				case *ssa.BinOp:
+					if !isCmp(x.Op) || !strings.HasPrefix(c.Path(x.X, nil), "len(") || !strings.HasSuffix(c.Path(x.X, nil), ".keyCtx)") || c.Path(x.Y, nil) != "0" || inLoop[x.Block()] || !domExits(x.Block()) {
 						return
 					}
-					if strings.HasSuffix(c.Path(st.Addr, nil), ".keyCtx") && strings.HasSuffix(c.Path(st.Val, nil), ".defaultKeyContextMap") {
-						okD = true
-						detail = "len(keyCtx) == 0 after the options leads to the default key context"
+					var zeroTrue bool
+					switch x.Op {
+					case token.EQL, token.LEQ:
+						zeroTrue = true
+					case token.NEQ, token.GTR:
+						zeroTrue = false
+					default:
+						return
 					}
-				})
-			}
-		})
+					for _, e := range boolEdges(x, zeroTrue) {
+						forEachInstr(fn, func(i2 ssa.Instruction) {
+							st, isS := i2.(*ssa.Store)
+							if !isS || !e.to.Dominates(st.Block()) {
+								return
+							}
+							if strings.HasSuffix(c.Path(st.Addr, nil), ".keyCtx") && strings.HasSuffix(c.Path(st.Val, nil), ".defaultKeyContextMap") {
+								found = true
+							}
+						})
+					}
+				case *ssa.Call:
+					if !top {
+						return
+					}
+					h := x.Call.StaticCallee()
+					if h == nil || !inModule(h) || h.Blocks == nil || h.Object() == nil || h.Object().Exported() || pkgPathOf(h) != pkgPathOf(fn) || inLoop[x.Block()] || !domExits(x.Block()) {
+						return
+					}
+					if search(h, false) {
+						found = true
+					}
+				}
+			})
+			return found
+		}
+		if search(nw, true) {
+			okD = true
+			detail = "len(keyCtx) == 0 after the options leads to the default key context"
+		}
 		c.Check("C18.P1", "key-context:defaults-when-none-configured", okD, nw.Pos(), detail)
 	} else {
 		c.Unresolved("C18.P1", "didtransformer.New")
